@@ -33,9 +33,9 @@ func CheckOne(in string, keepWS bool) (kind, what, out string) {
 	return
 }
 
-var texts = []string{"t", " ", " t", "t ", " t ", "\n", "&amp;", "&lt;", "&#9;", "&#10;", "&apos;", "a &gt; b", "  ", "&e;", "t  u", "\u00a0", "\u3000 ", "\u0085", "t]]", "]", "&#60;", "&#38;", "&#x3C;b&#x3e;", "&#38;amp;", "&#38;#60;", "]]&gt;", "]]&#62;", "&gt;"} // the last three: Unicode spaces that are NOT XML white space
+var texts = []string{"t", " ", " t", "t ", " t ", "\n", "&amp;", "&lt;", "&#9;", "&#10;", "&apos;", "a &gt; b", "  ", "&e;", "t  u", "\u00a0", "\u3000 ", "\u0085", "t]]", "]", "&#60;", "&#38;", "&#x3C;b&#x3e;", "&#38;amp;", "&#38;#60;", "]]&gt;", "]]&#62;", "&gt;", "]&gt;"} // \u00a0 \u3000 \u0085: Unicode spaces that are NOT XML white space; ]&gt; after a ] with a dropped node in between spells ]]>
 var cdatas = []string{"<![CDATA[x]]>", "<![CDATA[ x]]>", "<![CDATA[x ]]>", "<![CDATA[<&>]]>", "<![CDATA[]]]]><![CDATA[>]]>", "<![CDATA[]]>", "<![CDATA[ ]]>", "<![CDATA[a]]b]]>", "<![CDATA[<<<<&&&&]]>", "<![CDATA[>y]]>", "<![CDATA[]>]]>"}
-var others = []string{"<!--c-->", "<!-- -->", "<?p d?>", "<?q d  e ?>", "<?r x=\"1\" y?>", "<b/>", "<b></b>", "<b> </b>", "<b>t</b>", "<b>\u00a0</b>", "<b x=\"1\"> t  u </b>", "<b ></b >", "<b\n/>"}
+var others = []string{"<!--c-->", "<!-- -->", "<?p d?>", "<?q d  e ?>", "<?r x=\"1\" y?>", "<?s a></b>?>", "<?s a>t?>", "<b/>", "<b></b>", "<b> </b>", "<b>t</b>", "<b>\u00a0</b>", "<b x=\"1\"> t  u </b>", "<b ></b >", "<b\n/>"}
 
 var attrSyms = []string{"a", " ", "\"", "'", "&lt;", "&amp;", "&#9;", "&#10;", "&#13;", "&quot;", "&apos;", ">", "\t", "&#32;", "&gt;", "&#60;", "&#38;", "&#x3C;", "&#34;", "&#39;"} // the last five: numeric references to the characters that may not stand raw in an attribute value
 
